@@ -1,9 +1,12 @@
 #!/bin/sh
 # validate every /tmp/mut-C*/OUT/patchN.diff (+demoN.patch) -> /verif/.cache/seedval/<id>-<n>.json
+# optional $1: egrep filter on the id (e.g. 'C0[1-4]b')
 mkdir -p /verif/.cache/seedval
+F=${1:-.}
 ls /tmp/mut-C*/OUT/patch*.diff | while read p; do
   id=$(echo $p | sed 's#/tmp/mut-\(C[0-9]*[a-z]*\)/OUT/patch\([0-9]\).diff#\1-\2#')
   d=$(echo $p | sed 's#patch\([0-9]\).diff#demo\1.patch#')
+  echo $id | grep -Eq "$F" || continue
   [ -f /verif/.cache/seedval/$id.json ] && continue
   [ -f $d ] || continue
   echo "$p $d $id"
